@@ -404,6 +404,7 @@ func generate(rng *rand.Rand, tier string) []interface{} {
 			ins = append(ins, randomScenario(rng, i%20 == 0))
 		}
 		ins = append(ins, tcpTable(rng, 4)...)
+		ins = append(ins, lateTable(rng, 3)...)
 		return ins
 	}
 	budget := 400
@@ -419,6 +420,9 @@ func generate(rng *rand.Rand, tier string) []interface{} {
 		ins = append(ins, randomScenario(rng, i%20 == 0))
 	}
 	ins = append(ins, tcpTable(rng, 12)...)
+	for i := 0; i < 4; i++ {
+		ins = append(ins, lateTable(rng, 6)...)
+	}
 	return ins
 }
 
@@ -450,6 +454,44 @@ func tcpTable(rng *rand.Rand, absent int) []interface{} {
 					}
 					in.Net = "tcp"
 					in.Detail += "/tcp"
+					ins = append(ins, in)
+				}
+			}
+		}
+	}
+	return ins
+}
+
+// lateTable: the receiving server learns the tree only through the message (it parks the
+// message, asks the envelope's peer for the tree, dispatches when the tree has arrived).
+func lateTable(rng *rand.Rand, absent int) []interface{} {
+	var ins []interface{}
+	tr := nd(0, leaf(1), leaf(2))
+	var ns []flatNode
+	flatten(&tr, -1, &ns)
+	for me := range ns {
+		for _, typ := range []int{nodeh.TH1, nodeh.THA, nodeh.TC1, nodeh.TCA} {
+			for _, from := range []int{0, 1, 2, nodeh.FromAbsent, nodeh.FromRandom, nodeh.FromOtherTree} {
+				for _, peer := range []int{0, 1, 2, 3, nodeh.Outsider} {
+					if peer == ns[me].srv {
+						continue // the tree is requested from the peer: it must be another server
+					}
+					if from == nodeh.FromAbsent {
+						if absent <= 0 || rng.Intn(8) != 0 {
+							continue
+						}
+						absent--
+					}
+					in := subject(rng, tr, ns, me, typ, from, peer)
+					for i := range in.Msgs {
+						// no in-process TransmitMsg while the tree is unknown (it needs a message proxy): the
+						// fences also enter through Overlay.Process
+						if in.Msgs[i].Route == "transmit" {
+							in.Msgs[i].Route = "process"
+						}
+					}
+					in.LateTree = true
+					in.Detail += "/late-tree"
 					ins = append(ins, in)
 				}
 			}
@@ -521,7 +563,8 @@ func main() {
 		Import: "Onet.Corr.C02",
 		Rule: "every (tree shape <= 4 nodes incl. repeated servers) x receiving node x registration kind (handler/channel x single/aggregated) x " +
 			"claimed sender (each node, absent, random id, node of another tree, non-member) x envelope peer (each member, non-member, outsider, none, key-less), " +
-			"a seeded part of the same table for 5-6 node trees, seeded multi-message scenarios, and the sender x peer table of a 3-node tree on servers with real TCP sockets; " +
+			"a seeded part of the same table for 5-6 node trees, seeded multi-message scenarios, the sender x peer table of a 3-node tree on servers with real TCP sockets, " +
+			"and the same table with a receiver that learns the tree only through the message (parked, tree requested from the envelope's peer, dispatched on arrival); " +
 			"routes: Overlay.Process, Overlay.TransmitMsg, a router connection of the (byzantine) peer's server (in-memory transport or TCP); " +
 			"sender-less messages (they kill the pinned code's process) are a seeded sample; distinct = distinct Coq case term",
 		Shard:    250,
